@@ -149,9 +149,24 @@ def splitComma : Tok → List Tok
 
 /-! ### `_replace_shortcuts` -/
 
+/-- the loop of `PythonRegex._replace_shortcuts` (after the repair: a scanning pass that knows
+about escaped backslashes and about being inside a set); state = (`in_brackets`, `escaped`), `acc`
+is `res` reversed -/
+def replaceShortcutsGo : Tok → Bool → Bool → RToks → RToks
+  | [], _, _, acc => acc
+  | c :: rest, inb, esc, acc =>
+    if esc then
+      if c = ' ' then replaceShortcutsGo rest inb false (['\\', ' '] :: acc.tail)
+      else match shortcuts.find? (fun p => p.1 == ['\\', c]) with
+        | some p => replaceShortcutsGo rest inb false ((if inb then (p.2.drop 1).dropLast else p.2) :: acc.tail)
+        | none => replaceShortcutsGo rest inb false ([c] :: acc)
+    else
+      let inb' := if c = '[' then true else if c = ']' then false else inb
+      replaceShortcutsGo rest (if c = '\\' then inb else inb') (c = '\\')
+        ((if c = ' ' then ['\\', ' '] else [c]) :: acc)
+
 /-- `PythonRegex._replace_shortcuts` -/
-def replaceShortcuts (s : Tok) : Tok :=
-  shortcuts.foldl (fun acc p => replace acc p.1 p.2) s
+def replaceShortcuts (s : Tok) : Tok := joinR (replaceShortcutsGo s false false [])
 
 /-! ### `_escape_in_brackets` -/
 
